@@ -466,7 +466,7 @@ class ThreadSched:
                 parts.append((fd, len(o.inq), o.eof, o.reset, len(o.out), o.window, len(o.backlog)))
             else:
                 parts.append((fd, o.pipe.count))
-        return hash((tuple(parts), self.fp() if self.fp else None, w.now))
+        return hash((tuple(parts), self.fp() if self.fp else None, w.now, self.nfaults, self.env_pos))
 
     def sleep(self, t):
         self.block_until(lambda: False, "sleep", None, timeout=t)
